@@ -111,7 +111,15 @@ def family():
                 simple(views=[("r", 0)])])
     out.append([simple(views=[("m", 0), ("r", 2)]), simple(views=[("m", 0), ("r", 3)]), simple(views=[("m", 2)])])
     out.append([simple(views=[("m", 0)]), simple(views=[("om", 0), ("m", 3)]), simple(views=[("or", 0)]), simple(views=[("r", 3)])])
-    while len(out) < 48:
+    # a later stage whose tasks are ALL started early, next to the previous stage (two and three add-ons)
+    nh3 = dict(ft="filter::Not<filter::Has<C3>>", ftoks=["not", "has3"])
+    h3 = dict(ft="filter::Has<C3>", ftoks=["has3"])
+    out.append([dict(simple(views=[("m", 0)]), **h3), dict(simple(views=[("r", 0)]), **nh3), dict(simple(views=[("r", 0)]), **nh3)])
+    out.append([dict(simple(views=[("m", 0), ("m", 2)]), **h3), dict(simple(views=[("r", 0)]), **nh3),
+                dict(simple(views=[("r", 2)], par=True), **nh3), dict(simple(views=[("or", 0)]), **nh3)])
+    out.append([dict(simple(views=[("m", 0)]), ft="filter::Has<C1>", ftoks=["has1"]),
+                dict(simple(views=[("m", 0)]), ft="filter::Not<filter::Has<C1>>", ftoks=["not", "has1"]), simple(views=[("r", 2)])])
+    while len(out) < 51:
         k = rnd.randint(2, 4)
         out.append([rand_task(rnd) for _ in range(k)])
     return out
